@@ -10,7 +10,7 @@ PROPS = {
     "C15": {
         "engine": "faultsim",
         "level": "fault_enumeration",
-        "runs": {"quick": 640, "thorough": 40000},
+        "runs": {"quick": 2000, "thorough": 40000},
         "max_wall_s": {"quick": 0, "thorough": 1500},
         "shrink_s": {"quick": 45, "thorough": 300},
         "recheck_every": 25,
@@ -40,7 +40,7 @@ PROPS = {
     "C14": {
         "engine": "storesim",
         "level": "exploration",
-        "runs": {"quick": 4000, "thorough": 400000},
+        "runs": {"quick": 8000, "thorough": 400000},
         "max_wall_s": {"quick": 0, "thorough": 1500},
         "shrink_s": {"quick": 45, "thorough": 300},
         "recheck_every": 100,
@@ -69,9 +69,9 @@ PROPS = {
     "C13": {
         "engine": "storesim",
         # plugin-generated names / output directories: bufgen end to end with scripted plugins, containment oracles only
-        "also": [{"engine": "gensim", "runs": {"quick": 800, "thorough": 60000}}],
+        "also": [{"engine": "gensim", "runs": {"quick": 2000, "thorough": 60000}}],
         "level": "exploration",
-        "runs": {"quick": 4000, "thorough": 400000},
+        "runs": {"quick": 8000, "thorough": 400000},
         "max_wall_s": {"quick": 0, "thorough": 1500},
         "shrink_s": {"quick": 45, "thorough": 300},
         "recheck_every": 100,
@@ -122,7 +122,7 @@ PROPS = {
     "C01": {
         "engine": "buildsim",
         "level": "exploration",
-        "runs": {"quick": 480, "thorough": 60000},
+        "runs": {"quick": 1600, "thorough": 60000},
         "max_wall_s": {"quick": 0, "thorough": 1500},
         "shrink_s": {"quick": 60, "thorough": 300},
         "recheck_every": 25,
@@ -171,7 +171,7 @@ PROPS = {
     "C08": {
         "engine": "digestsim",
         "level": "exploration",
-        "runs": {"quick": 800, "thorough": 150000},
+        "runs": {"quick": 3000, "thorough": 150000},
         "max_wall_s": {"quick": 0, "thorough": 1500},
         "shrink_s": {"quick": 45, "thorough": 300},
         "recheck_every": 40,
@@ -201,7 +201,7 @@ PROPS = {
     "C17": {
         "engine": "gensim",
         "level": "exploration",
-        "runs": {"quick": 800, "thorough": 100000},
+        "runs": {"quick": 3000, "thorough": 100000},
         "max_wall_s": {"quick": 0, "thorough": 1500},
         "shrink_s": {"quick": 45, "thorough": 300},
         "recheck_every": 25,
